@@ -514,6 +514,31 @@ pub fn check_floating(c: &Floating, rec: &mut Rec) -> Result<(), String> {
         rec.class(if got == 0xFF { "in-window:idle-0xFF" } else { "in-window:screen-byte" });
         if clearly_inside {
             rec.class("clearly-inside-window");
+            // the ULA fetches during four of every eight T-states: over eight consecutive start
+            // times at least one read must show a fetched byte (no screen byte here is 0xFF)
+            let mut seen = got != 0xFF;
+            let mut k = 1u64;
+            while !seen && k < 8 {
+                e.verif_set_frame_clocks((t + k) as usize);
+                let g = port_in(&mut e, c.port)?;
+                rec.eval();
+                if g != 0xFF {
+                    if !allowed.contains(&g) {
+                        return Err(format!(
+                            "floating bus read of {:#06x} at frame T {} with latch {:#04x}: got {:#04x}, which is neither 0xFF nor a display/attribute byte of the line being fetched in the ULA-visible bank {}",
+                            c.port, t + k, latch, g, visible_bank
+                        ));
+                    }
+                    seen = true;
+                }
+                k += 1;
+            }
+            if !seen {
+                return Err(format!(
+                    "unclaimed port {:#06x} read at frame T {}..{} — well inside the 128-T fetch window of a picture line whose display and attribute bytes are all different from 0xFF — returned 0xFF eight times: the floating bus must show a byte the ULA is fetching",
+                    c.port, t, t + 7
+                ));
+            }
         }
         if visible_bank == 7 {
             rec.class("shadow-screen");
@@ -701,6 +726,6 @@ pub const RULE: &str = "address-sweep: all 65536 port addresses x {IN A,(C), OUT
 pub const ASSUMPTIONS: &[&str] = &[
     "decode predicates are written from the property text; the Kempston mouse is judged only at xxDF addresses with (A8,A10) in {(0,0),(1,0),(1,1)}, and any other A0=1/A5=0/A7=1 address is treated as possibly-mouse (not judged) when a mouse is attached; addresses with A7=0 are never mouse addresses",
     "device state is observed through border_color(), the paging hook and the canonical AY ports 0xFFFD/0xBFFD",
-    "floating-bus validity: 0xFF outside the 128-T fetch windows (8-T guard band in which anything allowed is accepted), otherwise 0xFF or a display/attribute byte of a line whose window meets the I/O cycle, read from the ULA-visible bank",
+    "floating-bus validity: 0xFF outside the 128-T fetch windows (8-T guard band in which anything allowed is accepted), otherwise 0xFF or a display/attribute byte of a line whose window meets the I/O cycle, read from the ULA-visible bank; well inside a window eight consecutive start times must show at least one fetched byte",
     "EAR polarity on ULA reads (bit 6) is exercised by C11, not here",
 ];
